@@ -530,9 +530,19 @@ def check_C13(chk):
     drv = setup(chk, ["Properties_C13.v"])
     nseq = 8 if chk.tier == "quick" else 150
     kinds = [("pass", 3), ("fail", 3), ("skiptest", 1), ("xensure", 1), ("mixed", 4), ("empty", 1)]
-    for g in range(nseq):
+    leftovers = [1, 3, 4, 5, 9] if chk.tier == "quick" else [1, 2, 3, 4, 5, 7, 8, 9, 16, 17, 101]
+    for g in range(nseq + len(leftovers)):
         root = gen_c.gen_tree(chk.rng, max_depth=chk.rng.choice([0, 1, 2]), max_tests=6, kinds=kinds, fw_acts=True, poke=False)
         probe = g % 2 == 0
+        if g >= nseq:
+            # a test ends with n expectations still pending for a function; the next test calls that
+            # function without declaring anything: strict mocks must report it in every mode
+            n = leftovers[g - nseq]
+            root = L.Suite(0, children=[L.Test(0, body=[("c", 1)] + [("expect",)] * n),
+                                        L.Test(1, body=[("calle",), ("c", 1)]),
+                                        L.Test(2, body=[("expect",)] * (n // 2) + [("c", 1)]),
+                                        L.Test(3, body=[("c", 1), ("calle",)])])
+            probe = False
         if g % 4 == 0:
             # several sub-suites with tests, a nested one, and own tests: state left behind by the
             # last test of one suite meets the first test of the next
@@ -540,7 +550,7 @@ def check_C13(chk):
             root = L.Suite(0, children=[L.Suite(1, children=[mk(0), mk(1)]),
                                         L.Suite(2, children=[mk(2), L.Suite(3, children=[mk(3)])]), mk(4), mk(5)])
         for s, t in root.tests():
-            if not t.skip:
+            if not t.skip and g < nseq:
                 r = chk.rng.random()
                 if probe:
                     # every test first looks at the framework state, then disturbs it
